@@ -88,6 +88,9 @@ pub struct CryptDict {
     #[pdf(key="StmF")]
     default_crypt_filter: Option<Name>,
 
+    #[pdf(key="StrF")]
+    string_crypt_filter: Option<Name>,
+
     #[pdf(key="EncryptMetadata", default="true")]
     encrypt_metadata: bool,
 
@@ -134,7 +137,10 @@ pub struct CryptFilter {
 pub struct Decoder {
     key_size: usize,
     key: Vec<u8>, // maximum length
+    /// crypt method for streams (/StmF)
     method: CryptMethod,
+    /// crypt method for strings (/StrF)
+    string_method: CryptMethod,
     /// A reference to the /Encrypt dictionary, if it is in an indirect
     /// object. The strings in this dictionary are not encrypted, so
     /// decryption must be skipped when accessing them.
@@ -162,10 +168,22 @@ impl Decoder {
             key_size,
             key,
             method,
+            string_method: method,
             encrypt_indirect_object: None,
             metadata_indirect_object: None,
             encrypt_metadata,
         }
+    }
+
+    /// `method` is the one of the filter that fixes the key length; apply what /StrF and /StmF say
+    fn with_filters(mut self, string_method: Option<CryptMethod>, stream_identity: bool) -> Decoder {
+        if let Some(m) = string_method {
+            self.string_method = m;
+        }
+        if stream_identity {
+            self.method = CryptMethod::None;
+        }
+        self
     }
 
     pub fn from_password(dict: &CryptDict, id: &[u8], pass: &[u8]) -> Result<Decoder> {
@@ -296,6 +314,16 @@ impl Decoder {
             Ok(digest.to_vec())
         }
 
+        fn crypt_filter<'a>(dict: &'a CryptDict, name: Option<&Name>) -> Result<Option<&'a CryptFilter>> {
+            match name {
+                Some(name) if name.as_str() != "Identity" => dict.crypt_filters.get(name.as_str())
+                    .map(Some)
+                    .ok_or_else(|| other!("missing crypt filter entry {:?}", name)),
+                _ => Ok(None)
+            }
+        }
+        let mut string_method = None;
+        let mut stream_identity = false;
         let (key_bits, method) = match dict.v {
             1 => (40, CryptMethod::V2),
             2 => {
@@ -306,10 +334,19 @@ impl Decoder {
                 }
             },
             4 ..= 6 => {
-                let default = dict
-                    .crypt_filters
-                    .get(try_opt!(dict.default_crypt_filter.as_ref()).as_str())
-                    .ok_or_else(|| other!("missing crypt filter entry {:?}", dict.default_crypt_filter.as_ref()))?;
+                // /StmF and /StrF name a crypt filter of /CF, or the predefined /Identity (no encryption)
+                let stream_filter = crypt_filter(dict, dict.default_crypt_filter.as_ref())?;
+                let string_filter = crypt_filter(dict, dict.string_crypt_filter.as_ref())?;
+                string_method = Some(string_filter.map(|f| f.method).unwrap_or(CryptMethod::None));
+                // the filter that determines the key length: the one for streams unless that is /Identity
+                let default = match (stream_filter, string_filter) {
+                    (Some(f), _) => f,
+                    (None, Some(f)) => {
+                        stream_identity = true;
+                        f
+                    }
+                    (None, None) => err!(other!("missing crypt filter entry {:?}", dict.default_crypt_filter.as_ref()))
+                };
 
                 match default.method {
                     CryptMethod::V2 | CryptMethod::AESV2 => (
@@ -335,7 +372,7 @@ impl Decoder {
 
             if check_password_rc4(level, dict.u.as_bytes(), id, &key[..std::cmp::min(key_size, 16)]) {
                 let decoder = Decoder::new(key, key_size, method, dict.encrypt_metadata);
-                Ok(decoder)
+                Ok(decoder.with_filters(string_method, stream_identity))
             } else {
                 let password_wrap_key = key_derivation_owner_password_rc4(level, key_size, pass)?;
                 let mut data = dict.o.as_bytes().to_vec();
@@ -358,7 +395,7 @@ impl Decoder {
                 );
 
                 if check_password_rc4(level, dict.u.as_bytes(), id, &key[..key_size]) {
-                    let decoder = Decoder::new(key, key_size, method, dict.encrypt_metadata);
+                    let decoder = Decoder::new(key, key_size, method, dict.encrypt_metadata).with_filters(string_method, stream_identity);
                     Ok(decoder)
                 } else {
                     Err(PdfError::InvalidPassword)
@@ -468,7 +505,7 @@ impl Decoder {
                 .decrypt_padded_mut::<NoPadding>(&mut wrapped_key)
                 .map_err(|_| PdfError::InvalidPassword));
 
-            let decoder = Decoder::new(key_slice.into(),  32, method, dict.encrypt_metadata);
+            let decoder = Decoder::new(key_slice.into(),  32, method, dict.encrypt_metadata).with_filters(string_method, stream_identity);
             Ok(decoder)
         } else {
             err!(format!("unsupported V value {}", level).into())
@@ -539,7 +576,15 @@ impl Decoder {
         hash
     }
 
+    /// decrypt the data of a stream
     pub fn decrypt<'buf>(&self, id: PlainRef, data: &'buf mut [u8]) -> Result<&'buf [u8]> {
+        self.decrypt_with(self.method, id, data)
+    }
+    /// decrypt a string
+    pub fn decrypt_string<'buf>(&self, id: PlainRef, data: &'buf mut [u8]) -> Result<&'buf [u8]> {
+        self.decrypt_with(self.string_method, id, data)
+    }
+    fn decrypt_with<'buf>(&self, method: CryptMethod, id: PlainRef, data: &'buf mut [u8]) -> Result<&'buf [u8]> {
         if self.encrypt_indirect_object == Some(id) {
             // Strings inside the /Encrypt dictionary are not encrypted
             return Ok(data);
@@ -558,8 +603,9 @@ impl Decoder {
         // Algorithm 1
         // a) we have those already
 
-        match self.method {
-            CryptMethod::None => unreachable!(),
+        match method {
+            // the /Identity filter
+            CryptMethod::None => Ok(data),
             CryptMethod::V2 => {
                 // b)
                 let mut key = [0; 16 + 5];
